@@ -965,6 +965,9 @@ class NestedFrame(pd.DataFrame):
 
             if target_flat.index.name is None:  # set name if not present
                 target_flat.index.name = "index"
+            # The name of the index must be distinguishable from the names of the nested fields
+            while target_flat.index.name in target_flat.columns:
+                target_flat.index.name = f"_{target_flat.index.name}"
             # Index must always be the first sort key for nested columns
             nested_by = [target_flat.index.name] + [
                 ".".join(self._parse_hierarchical_components(col)[1:]) for col in by
